@@ -180,12 +180,9 @@ fn seq_family(
     })
 }
 
-/// all viable token prefixes up to `max_len`, each followed by up to `dev` non-viable
-/// tokens and up to `more` arbitrary further tokens (deviation-bounded enumeration)
-pub fn viable_with_deviations(max_len: usize, dev: usize, more: usize) -> Vec<Vec<u8>> {
+/// all viable token prefixes up to `max_len` (shortest first)
+pub fn viable_prefixes(max_len: usize) -> Vec<Vec<u8>> {
     let t = gen::T16;
-    let mut out: Vec<Vec<u8>> = vec![];
-    // BFS over viable prefixes
     let mut frontier: Vec<Vec<u8>> = vec![vec![]];
     let mut viable_all: Vec<Vec<u8>> = vec![vec![]];
     for _ in 0..max_len {
@@ -202,41 +199,68 @@ pub fn viable_with_deviations(max_len: usize, dev: usize, more: usize) -> Vec<Ve
         viable_all.extend(next.iter().cloned());
         frontier = next;
     }
-    out.extend(viable_all.iter().cloned());
-    // deviations: non-viable continuation(s), then arbitrary tokens
-    let mut cur: Vec<Vec<u8>> = viable_all;
-    for _ in 0..dev {
-        let mut next = vec![];
-        for p in &cur {
-            for tok in t {
-                let mut q = p.clone();
-                q.extend_from_slice(tok);
-                if !refjson::viable_prefix(&q, RMode::Decode) {
-                    next.push(q);
-                }
+    viable_all
+}
+
+/// one case = one viable prefix (slot 0) or one viable prefix with one first deviating token and
+/// everything the bounds allow after it (slots 1..=16)
+pub fn viable_family(name: &str, l: usize, dev: usize, more: usize, check: impl Fn(&[u8], &mut Ctx) + Send + Sync + 'static) -> Family {
+    let prefixes = viable_prefixes(l);
+    let slots = gen::T16.len() as u64 + 1;
+    Family::new(name, prefixes.len() as u64 * slots, move |idx, ctx| {
+        let p = &prefixes[(idx / slots) as usize];
+        let slot = (idx % slots) as usize;
+        if slot == 0 {
+            check(p, ctx);
+            return;
+        }
+        if dev == 0 {
+            return;
+        }
+        let mut cur = p.clone();
+        cur.extend_from_slice(gen::T16[slot - 1]);
+        if refjson::viable_prefix(&cur, RMode::Decode) {
+            return;
+        }
+        // `cur` is the prefix plus its first deviation: enumerate the rest below it
+        check(&cur, ctx);
+        let mut f = |d: &[u8]| check(d, ctx);
+        if dev > 1 {
+            // further deviations (each again followed by the arbitrary tail)
+            for_each_deviation_below(&mut cur, dev - 1, more, &mut f);
+        } else {
+            for_each_tail(&mut cur, more, &mut f);
+        }
+    })
+}
+
+fn for_each_tail(cur: &mut Vec<u8>, more: usize, f: &mut dyn FnMut(&[u8])) {
+    if more == 0 {
+        return;
+    }
+    for tok in gen::T16 {
+        let n = cur.len();
+        cur.extend_from_slice(tok);
+        f(cur);
+        for_each_tail(cur, more - 1, f);
+        cur.truncate(n);
+    }
+}
+
+fn for_each_deviation_below(cur: &mut Vec<u8>, dev: usize, more: usize, f: &mut dyn FnMut(&[u8])) {
+    for tok in gen::T16 {
+        let n = cur.len();
+        cur.extend_from_slice(tok);
+        if !refjson::viable_prefix(cur, RMode::Decode) {
+            f(cur);
+            if dev > 1 {
+                for_each_deviation_below(cur, dev - 1, more, f);
+            } else {
+                for_each_tail(cur, more, f);
             }
         }
-        out.extend(next.iter().cloned());
-        cur = next;
+        cur.truncate(n);
     }
-    // `cur` = sequences ending with the last deviation; append up to `more` arbitrary tokens
-    let mut tails: Vec<Vec<u8>> = cur;
-    for _ in 0..more {
-        let mut next = vec![];
-        for p in &tails {
-            for tok in t {
-                let mut q = p.clone();
-                q.extend_from_slice(tok);
-                next.push(q);
-            }
-        }
-        out.extend(next.iter().cloned());
-        tails = next;
-    }
-    out.sort();
-    out.dedup();
-    out.sort_by(|a, b| (a.len(), a).cmp(&(b.len(), b)));
-    out
 }
 
 pub fn ws_run_docs(max_run: usize) -> Vec<Vec<u8>> {
@@ -384,9 +408,8 @@ pub fn families_opt(tier: Tier, _variant: &str, mode: Mode, with_viable: bool) -
     if with_viable {
         let d = dc(if q { f2 } else { f3 });
         let (l, dev, more) = if q { (5, 1, 1) } else { (7, 2, 1) };
-        v.push(Family::of_vec("t16-viable+deviations", viable_with_deviations(l, dev, more), move |doc, ctx| {
-            check_doc(ctx, doc, &d)
-        }));
+        // one case = one viable prefix with all its bounded deviations
+        v.push(viable_family(&format!("t16-viable<={l}+deviations<={dev}+tail<={more}"), l, dev, more, move |doc, ctx| check_doc(ctx, doc, &d)));
     }
     v.push(seq_family("b11-root-string", gen::B11, if q { 4 } else { 6 }, b"\"", b"\"", dc(f2)));
     v.push(seq_family("b11-key", gen::B11, if q { 3 } else { 5 }, b"{\"", b"\":1}", dc(f2)));
@@ -406,6 +429,31 @@ pub fn families_opt(tier: Tier, _variant: &str, mode: Mode, with_viable: bool) -
         v.push(Family::of_vec("number-positions", number_position_docs(if q { 40 } else { 72 }), move |doc, ctx| {
             check_doc(ctx, doc, &d)
         }));
+    }
+    {
+        // string bodies: escape head + plain run + every B11 tail, as root string and as key
+        let (heads, max_run, tl) = if q { (2usize, 70u64, 3u32) } else { (3, 140, 3) };
+        for (name, pre, post) in [("string-head-run-tail/root", &b"\""[..], &b"\""[..]), ("string-head-run-tail/key+element", &b"{\"k\":[\""[..], &b"\"]}"[..])] {
+            let d = dc(f2);
+            let sub = if name.ends_with("root") { 1 } else { 3 };
+            v.push(Family::new(name, gen::head_run_tail_count(heads, max_run / sub, tl), move |idx, ctx| {
+                let body = gen::head_run_tail_body(heads, max_run / sub, tl, idx);
+                let mut doc = pre.to_vec();
+                doc.extend_from_slice(&body);
+                doc.extend_from_slice(post);
+                check_doc(ctx, &doc, &d);
+            }));
+        }
+    }
+    {
+        let d = dc(f2);
+        let mut docs: Vec<Vec<u8>> = gen::number_shape_docs().into_iter().map(|s| s.into_bytes()).collect();
+        for e in gen::SPACED_EMPTIES {
+            docs.push(e.as_bytes().to_vec());
+            docs.push(format!("[{e},{{\"a\":{e}}} ,{e}]").into_bytes());
+            docs.push(format!("{{\"a\":{e},\"b\":[{e}]}}").into_bytes());
+        }
+        v.push(Family::of_vec("number-shapes+spaced-empties", docs, move |doc, ctx| check_doc(ctx, doc, &d)));
     }
     {
         // corpus documents whole, cut at evenly spaced points and with one byte replaced there
